@@ -104,6 +104,22 @@ def _fmain(b):
     return fmain
 
 
+def _fmain_kw(b):
+    def fmain_kw(path):
+        CALLS["fmain_kw"] += 1
+        from redun import File
+        # the File is created inside the task and handed to the child BY KEYWORD (and once more inside a container)
+        return [T("summ")(f=File(path)), T("summ_in")(d={"k": [File(path)]}), b]
+    return fmain_kw
+
+
+def _summ_in(b):
+    def summ_in(d):
+        CALLS["summ_in"] += 1
+        return len(d["k"][0].read()) + 1000 * b
+    return summ_in
+
+
 def _vleaf(b):
     def vleaf(x):
         CALLS["vleaf"] += 1
@@ -118,7 +134,7 @@ def _vtop(b):
     return vtop
 
 
-BODIES = {"summ": _summ, "fmain": _fmain, "vleaf": _vleaf, "vtop": _vtop, "leaf": _leaf, "mid": _mid, "top": _top, "fanout": _fanout, "idt": _idt, "boom": _boom, "rec": _rec, "guard": _guard,
+BODIES = {"fmain_kw": _fmain_kw, "summ_in": _summ_in, "summ": _summ, "fmain": _fmain, "vleaf": _vleaf, "vtop": _vtop, "leaf": _leaf, "mid": _mid, "top": _top, "fanout": _fanout, "idt": _idt, "boom": _boom, "rec": _rec, "guard": _guard,
           "big": _big, "usebig": _usebig}
 
 
